@@ -73,6 +73,15 @@ func TestC16(t *testing.T) {
 				b = append(b, []string{"", " ", "\n"}[rapid.IntRange(0, 2).Draw(rt, "pre")]...)
 				b = gen.Str(rt, b, rapid.IntRange(0, 12).Draw(rt, "pieces"))
 				b = append(b, gen.Trailers[rapid.IntRange(0, len(gen.Trailers)-1).Draw(rt, "trail")]...)
+				if rapid.IntRange(0, 7).Draw(rt, "longtail?") == 0 {
+					// the string is the first token of a much longer document: what the readers
+					// reserve, keep or hand back may depend on how much input follows the string
+					n := []int{1100, 4200, 5000, 9000, 17000}[rapid.IntRange(0, 4).Draw(rt, "taillen")]
+					b = append(b, ',')
+					for len(b) < n {
+						b = append(b, ` "filler", [1, 2, 3], {"k": null},`...)
+					}
+				}
 			}
 			r.Begin("dst", b)
 			if err := core.Catch(func() error { return dstEval("dst", b) }); err != nil {
